@@ -1,10 +1,11 @@
 """C13 - well-formed requests never hit the server's internal-error path."""
 import ast
 
-from ..astutil import U, dotted, walk_local, is_self_attr, call_name, short, enum_member, get_class, get_method, methods, classes, params, bind_args
+from ..astutil import all_functions, U, dotted, walk_local, is_self_attr, call_name, short, enum_member, get_class, get_method, methods, classes, params, bind_args
 from ..cfg import CFG, calls_at
 from ..dataflow import ReachingDefs, node_of_expr
-from ..guards import handler_catches
+from ..guards import handler_catches, dominating_edges
+from ..index import Index
 from ..engmodel import ENGINE, CRYPTO, POLICY
 from ..engai import EngineAI, UNK
 from ..factmodel import FactoryModel
@@ -633,6 +634,70 @@ def check_library_value_errors(ctx):
                           '%s can reject the values of a well-formed request (ValueError / InvalidTag) and no try around it turns that into a KMIP error: the item is answered with General Failure' % U(call)[:60])
     ctx.count('value_checking_library_calls', n, 6)
 
+UNION_FIELD_SCOPE = ('kmip/services/server/engine.py', 'kmip/services/server/session.py', 'kmip/services/server/policy.py', 'kmip/services/server/auth/utils.py',
+                     'kmip/services/server/auth/slugs.py', 'kmip/services/server/auth/api.py', 'kmip/services/server/crypto/engine.py', 'kmip/pie/factory.py')
+
+
+def union_fields(src):
+    """{public field name: (owner class, {member class name: ref})} for decoded fields whose class is chosen by a tag at decode time."""
+    ix = Index(src)
+    out = {}
+    for rel in src.modules('kmip/core'):
+        t = src.tree(rel)
+        for c in [n for n in ast.walk(t) if isinstance(n, ast.ClassDef)]:
+            rd = get_method(c, 'read', optional=True)
+            if rd is None:
+                continue
+            by = {}
+            for a in walk_local(rd):
+                if isinstance(a, ast.Assign) and len(a.targets) == 1 and is_self_attr(a.targets[0]) and isinstance(a.value, ast.Call):
+                    ref = ix.resolve_class(rel, a.value.func)
+                    # chosen by a tag field of the owner: the assignment is an arm of `if self.<tag> == <member>`
+                    # (KeyValue.key_material, chosen by the TTLV type of the next item, is not one: KeyValue.validate() refuses the
+                    # structure alternative at decode time, so only KeyMaterial ever reaches the server code)
+                    par = getattr(a, '_parent', None)
+                    tagged = isinstance(par, ast.If) and isinstance(par.test, ast.Compare) and len(par.test.ops) == 1 and isinstance(par.test.ops[0], (ast.Eq, ast.Is)) \
+                        and any(is_self_attr(x) for x in (par.test.left, par.test.comparators[0]))
+                    if ref and tagged:
+                        by.setdefault(a.targets[0].attr, {})[ref[1]] = ref
+            for f, members in by.items():
+                if len(members) > 1:
+                    out[f.lstrip('_')] = (c.name, members, ix)
+    return out
+
+
+def check_union_field_reads(ctx):
+    """C13.R15: a field read on a decoded value whose class depends on a type tag exists in every member class, or the read is behind a test of the tag / class."""
+    ctx.rule('C13.R15', 'where the decoder chooses the class of a field by a type tag of the message (Credential.credential_value: UsernamePassword / Device / Attestation credential; KeyValue.key_material: bytes / structure), server-side code reads on that field only attributes that every member class defines, unless the read is dominated by a test of the owner\'s tag or of the value\'s class (isinstance / hasattr) or sits in a try catching AttributeError: otherwise a legal request carrying one of the other alternatives raises AttributeError and is answered with General Failure')
+    uf = union_fields(ctx.src)
+    ctx.count('tag_selected_fields', len(uf), 1)
+    from ..guards import handler_catches
+    n = 0
+    for rel in UNION_FIELD_SCOPE:
+        t = ctx.src.tree(rel)
+        for qn, fn, _c in all_functions(t):
+            reads = [a for a in walk_local(fn) if isinstance(a, ast.Attribute) and isinstance(a.ctx, ast.Load) and isinstance(a.value, ast.Attribute) and a.value.attr in uf and not is_self_attr(a.value)]
+            if not reads:
+                continue
+            g = CFG(fn)
+            for a in reads:
+                owner, members, ix = uf[a.value.attr]
+                n += 1
+                lacking = sorted(m_ for m_, ref in members.items() if a.attr not in ix.fields(ref))
+                ok = not lacking
+                if not ok:
+                    nd = node_of_expr(g, a)
+                    base = U(a.value.value)
+                    for tn, lab in (dominating_edges(g, nd) if nd is not None else ()):
+                        tx = U(tn.stmt)
+                        if ('isinstance(' in tx or 'hasattr(' in tx) and U(a.value) in tx or (base + '.') in tx.replace(U(a.value), ''):
+                            ok = True
+                    if nd is not None and any(handler_catches(h) & {'*', 'Exception', 'AttributeError'} for tr in nd.tries for h in tr.handlers):
+                        ok = True
+                ctx.check(ok, 'C13.R15', '%s|%s.%s' % (qn, a.value.attr, a.attr), '%s:%s %s' % (rel, a.lineno, qn), '%s.%s defined by every alternative of %s.%s (or read behind a test of the tag)' % (a.value.attr, a.attr, owner, a.value.attr),
+                          '%s reads .%s on %s.%s, which the decoder may have built as %s - that class has no such attribute and nothing before the read tells the alternatives apart: AttributeError -> General Failure for a legal request' % (U(a)[:70], a.attr, owner, a.value.attr, '/'.join(lacking)))
+    ctx.analysed['tag_selected_field_reads'] = n
+
 def run(ctx):
     src = ctx.src
     ai = EngineAI.shared(src)
@@ -869,6 +934,7 @@ def run(ctx):
     check_factory_optional_deref(ctx)
     check_table_lookup_results(ctx)
     check_library_value_errors(ctx)
+    check_union_field_reads(ctx)
     from .c05 import check_big_integer_columns
     check_big_integer_columns(ctx, 'C13.R14', ' (shared with C05.R13)')
     ctx.not_decided += ['implicit exceptions of third-party code for particular values (cryptography rejecting a nonce length, unpadding failure with a wrong key)']
